@@ -27,7 +27,7 @@ ASSUMPTIONS = [
 ]
 REQUIRED_COUNTERS = ["exponent_real_axis", "exponent_imaginary_axis", "cumulant_checks", "conversion_roundtrips",
                      "conversion_differences", "martingale_cf", "martingale_direct_drift", "martingale_chain_drift", "models_reached_by_parameter_update", "exponent_after_conversion",
-                     "truncated_measure_drifts", "chain_model_drifts"]
+                     "truncated_measure_drifts", "chain_model_drifts", "chain_process_drifts"]
 MIN_NONTRIVIAL = {"quick": 30, "thorough": 300}
 THOROUGH_ROUNDS = 8      # the thorough tier runs the generators this many times (different seeds)
 SHARD_TIMEOUT = {"quick": 900, "thorough": 7200}
@@ -40,9 +40,14 @@ def gen_cases(tier, seed):
     for i in range(n):
         fam = W.FAMILIES[i % 4]
         br = W.CGMY_BRANCHES[(i // 4) % 5] if fam == "CGMY" else None
-        sp = W.gen_model_spec(rng, fam, br, exp=bool(i % 2))
-        if i % 3 == 1:     # parameters reached by assignment + initialisation() from another parameter set of the family
+        sp = W.gen_model_spec(rng, fam, br, exp=bool(rng.random() < 0.5))     # (drawn: a modulo rule ties Levy / exponential to the family cycle)
+        if rng.random() < 0.4:     # parameters reached by assignment + initialisation() from another parameter set of the family
             sp["start"] = W.gen_model_spec(rng, fam, br, exp=False)
+        specs.append(sp)
+    # exponential models that can be simulated directly, their parameter object having gone through assignments + initialisation()
+    for fam in ("HEM", "MERTON", "HEM"):
+        sp = W.gen_model_spec(rng, fam, None, exp=True)
+        sp["start"] = W.gen_model_spec(rng, fam, None, exp=False)
         specs.append(sp)
     specs.append({"family": "BS", "params": {"sigma": 0.3}, "exp": True, "spot": 100.0, "r": 0.05, "d": 0.02})
     return [{"spec": s, "seed": int(rng.integers(2**31))} for s in specs]
@@ -318,6 +323,28 @@ def run_case(case, R):
                 lo6, hi6 = (float(t) for t in grid.truncations[0])
                 R.hit("chain_model_drifts")
                 judge_truncated(pm.levy_triplet, lo6, hi6, "Markov-chain process's model")
+                # ... and the drift the chain really uses: deterministic drift + rate-weighted grid states = mean per unit time of the process
+                # with its jumps restricted to the grid bounds, in the DECLARED representation (every activity index, y = 1 included)
+                from rpylib.product.product import Product
+                from rpylib.product.underlying import Spot
+                from rpylib.product.payoff import Forward
+                from .. import chain as C
+
+                proc.initialisation(Product(payoff_underlying=Spot(), payoff=Forward(strike=0.0), maturity=1.0))
+                pd6 = float(np.asarray(proc.process_drift(), dtype=float).reshape(-1)[0])
+                rates6, errs6, _, _, _ = C.oracle_rates_1d(spec, base, grid)
+                mean_jumps = float(np.dot(np.asarray(grid.axes[0], dtype=float), rates6))
+                h0_ = _h(rep0, fv)
+                if 1 - alpha < 0.25 and any((x - h0_(x)) != 0 for x in (1e-3, -1e-3)):
+                    R.skip("chain-drift-oracle-singularity-too-strong")
+                else:
+                    comp6, e6 = Q.integrate_general(lambda x: (x - h0_(x)) * dens(x), lo6, hi6, [b for b in list(br) + [-1.0, 1.0, 0.0] if lo6 < b < hi6], 1 - alpha if 1 - alpha > 0 else 1.0)
+                    want6 = float(m6.drift()) + a0 + comp6
+                    R.hit("chain_process_drifts")
+                    if not (abs(pd6 + mean_jumps - want6) <= 1e-8 * (1 + abs(want6) + abs(mean_jumps) + abs(pd6)) + 10 * (e6 + float(np.dot(np.abs(grid.axes[0]), errs6)))):
+                        R.violation(f"{fam}-chain-process-drift", f"{label}: process_drift() of the Markov chain = {pd6!r}; with the rate-weighted grid states "
+                                    f"({mean_jumps!r}) the chain has mean {pd6 + mean_jumps!r} per unit time, the process restricted to the grid bounds {want6!r} "
+                                    f"(declared {rep0}, a = {a0!r})", wit)
             except Exception as exc:  # noqa: BLE001
                 R.violation(f"{fam}-chain-construction-raises", f"{label}: {type(exc).__name__}: {exc}", wit)
     else:
